@@ -13,7 +13,8 @@
 //        G ok info evals <D> evecs <D*D row major> sel_evals <d> sel <D*d row major>
 //  E <npe|lltsa|lpp> N D d k width nshift kshift em sep  x[N*D] (sample major)  [xk[N*D] if sep = 1]
 //      em = 0: eigen_method = Dense; 1: eigen_method not given (the library's default); 2: Randomized (the library
-//      refuses generalised problems with unsupported_method_error: printed as "E unsupported <what>")
+//      refuses generalised problems with unsupported_method_error: printed as "E unsupported <what>");
+//      3: Dense, embed() called from inside the harness's own `#pragma omp parallel num_threads(3)` region (omp single)
 //      sep = 0: the kernel, distance and feature callbacks all see x; sep = 1: the feature callback sees x, the
 //      kernel and distance callbacks see xk (Wave 3: translated features x = xk + t with the neighbourhood graph and
 //      the alignment / weight matrix held fixed, i.e. a translation-invariant kernel: isolates the assembly of the pencil)
@@ -44,6 +45,7 @@
 #include <cstdio>
 #include <cstdlib>
 #include <cstring>
+#include <exception>
 #include <iostream>
 #include <sstream>
 #include <string>
@@ -283,7 +285,7 @@ static int do_E(std::istringstream& is)
     { printf("E ERR parse\n"); return 0; }
     int sep = 0;
     is >> em >> sep;
-    if (!is || em < 0 || em > 2 || sep < 0 || sep > 1) { printf("E ERR parse\n"); return 0; }
+    if (!is || em < 0 || em > 3 || sep < 0 || sep > 1) { printf("E ERR parse\n"); return 0; }
     int mi = method_of(m);
     if (mi < 0) { printf("E ERR method\n"); return 0; }
     DenseMatrix X, XK;
@@ -302,7 +304,31 @@ static int do_E(std::istringstream& is)
                                             : LocalityPreservingProjections;
     try
     {
-        if (em == 1)
+        if (em == 3)
+        {
+            // the call made from INSIDE an application's own parallel region (one thread of a team of three calls
+            // embed; nested parallelism is whatever the runtime's default is): same answer as the plain call
+            std::exception_ptr ep;
+#pragma omp parallel num_threads(3)
+            {
+#pragma omp single
+                {
+                    try
+                    {
+                        out = embed(idx.begin(), idx.end(), kcb, dcb, fcb,
+                                    (method = meth, target_dimension = (IndexType)d, num_neighbors = (IndexType)k,
+                                     gaussian_kernel_width = width, nullspace_shift = nshift, klle_shift = kshift,
+                                     neighbors_method = Brute, eigen_method = Dense));
+                    }
+                    catch (...)
+                    {
+                        ep = std::current_exception();
+                    }
+                }
+            }
+            if (ep) std::rethrow_exception(ep);
+        }
+        else if (em == 1)
             out = embed(idx.begin(), idx.end(), kcb, dcb, fcb,
                         (method = meth, target_dimension = (IndexType)d, num_neighbors = (IndexType)k,
                          gaussian_kernel_width = width, nullspace_shift = nshift, klle_shift = kshift,
